@@ -34,21 +34,23 @@ Section Styles.
     ++ (if o_summary_tooltip o then [STooltip] else []) ++ [SSummary].
   Definition key_styles : list style_id := (if o_key_tooltip o then [STooltip] else []) ++ [SObjectKey].
 
-  Fixpoint tvs (name : option key) (incl excl : option (list key)) (v : pv) {struct v} : list style_id :=
+  Fixpoint tvs (name : option key) (path : list key) (incl excl : option (list key)) (v : pv) {struct v} : list style_id :=
     let content :=
       match v with
       | PLeaf _ _ _ _ _ _ => [SSimple]
       | PNode is_seq _ _ _ items =>
-          let label := is_seq || o_label_keys o in
           let rendered :=
             map (fun kc : key * pv =>
-                   (fst kc, if label then key_styles ++ tvs None None None (snd kc) else tvs (Some (fst kc)) None None (snd kc))) items in
-          let order := ordered_keys incl excl (map fst items) in
-          flat_map (fun k => match assoc_key k rendered with Some h => h | None => [] end) order ++ [SComplex]
+                   (fst kc, if is_label_at o is_seq path (fst kc)
+                            then key_styles ++ tvs None (path ++ [fst kc]) None None (snd kc)
+                            else tvs (Some (fst kc)) (path ++ [fst kc]) None None (snd kc))) items in
+          let order := order_at o path incl excl (map fst items) in
+          let pick := flat_map (fun k => match assoc_key k rendered with Some h => h | None => [] end) in
+          pick (filter (fun k => negb (is_label_at o is_seq path k)) order) ++ pick (filter (is_label_at o is_seq path) order) ++ [SComplex]
       end in
     if needs_summary o name v then summary_styles name ++ content ++ [SDetails] else content.
 
-  Definition styles_of (v : pv) : list style_id := dedup_styles [] (tvs (o_name o) (o_include o) (o_exclude o) v).
+  Definition styles_of (v : pv) : list style_id := dedup_styles [] (tvs (o_name o) (o_root_path o) (o_include o) (o_exclude o) v).
 End Styles.
 
 (* two values of the same shape: same keys, same kinds of leaves, strings of the same length -- every other string
